@@ -1079,6 +1079,25 @@ def long_configs(system):
     return out
 
 
+def _one_deviation_chunks(task, n):
+    """A k = 1 dev task cut into n tasks by the range the replaced position lies in (the alternatives are removed from the
+    menus outside the range; the deviation-free history is run by every part)."""
+    if n <= 1:
+        return [task]
+    if task["k"] != 1:
+        raise HarnessError("HARNESS-CRASH: _one_deviation_chunks needs k = 1")
+    L = len(task["default"])
+    menus = task["menu"] if task.get("menu_per_pos") else [task["menu"]] * L
+    out = []
+    for c in range(n):
+        lo, hi = c * L // n, (c + 1) * L // n
+        t = dict(task)
+        t.update(menu=[menus[i] if lo <= i < hi else [] for i in range(L)], menu_per_pos=True, prefix=list(task["default"][:lo]),
+                 label="%s|dev@%d-%d" % (task["label"], lo, hi - 1), cost=task["cost"] / n)
+        out.append(t)
+    return out
+
+
 def _long_tasks(tier):
     out = []
     for sysn in ("Stream", "Batch"):
@@ -1099,8 +1118,12 @@ def _long_tasks(tier):
             else:
                 raise HarnessError("HARNESS-CRASH: unknown long history %r" % hist)
             # the "pairs" / "batch" plans are split by their first replaced position (mc.explorer.dev_split: same set of
-            # histories); the others are a few seconds each and stay whole (every split part re-runs its prefix and one fresh replay)
-            out += dev_split(task) if cfg["plan"] in ("pairs", "batch") else [task]
+            # histories, every part re-runs its prefix and one fresh replay); the k = 1 "far" plans stay whole in the quick
+            # tier (a few seconds each) and are cut into four ranges of the replaced position in the thorough tier
+            if cfg["plan"] in ("pairs", "batch"):
+                out += dev_split(task)
+            else:
+                out += _one_deviation_chunks(task, 4 if tier == "thorough" else 1)
     return out
 
 
@@ -1274,7 +1297,7 @@ def describe(tier):
             },
             "round3b_long": {
                 "rule": "dev mode: the default history with every choice of <= k positions replaced by every alternative event of the "
-                "configuration's menu, all run to completion (pairs and batch plans are split by the first replaced position)",
+                "configuration's menu, all run to completion (pairs and batch plans are split by the first replaced position, the thorough far plans into four ranges of the replaced position)",
                 "plans (L = history length, k = replaced positions)": {k: list(v) for k, v in LONG[tier].items()},
                 "stream_rows": [list(r) for r in LONG_ROWS],
                 "histories": {
